@@ -15,9 +15,9 @@ pub mod rows_c {
     // the region names `crate::planner::SortDirection` by absolute path: the real enum is used
     use crate::planner::{NullOrdering, SortDirection};
 
-    /// a run batch: two rows, up to two key columns of nullable i64
+    /// a run batch: two rows, up to three key columns of nullable i64
     pub struct KBatch {
-        pub cols: [[Option<i64>; 2]; 2],
+        pub cols: [[Option<i64>; 2]; 3],
     }
     pub struct KCol {
         pub cells: [Option<i64>; 2],
@@ -92,14 +92,18 @@ pub mod rows_c {
             }
         }
     }
-    fn check() {
+    fn any_batch() -> KBatch {
+        KBatch { cols: [[any_cell(), any_cell()], [any_cell(), any_cell()], [any_cell(), any_cell()]] }
+    }
+    fn check(max_keys: usize) {
         let n: usize = kani::any();
-        kani::assume(n >= 1 && n <= 2);
-        let a = KBatch { cols: [[any_cell(), any_cell()], [any_cell(), any_cell()]] };
-        let b = KBatch { cols: [[any_cell(), any_cell()], [any_cell(), any_cell()]] };
+        kani::assume(n >= 1 && n <= max_keys);
+        let a = any_batch();
+        let b = any_batch();
         let keys = [
             KSortExpr { expr: KExpr { col: 0 }, direction: any_dir(), nulls: any_nulls() },
             KSortExpr { expr: KExpr { col: 1 }, direction: any_dir(), nulls: any_nulls() },
+            KSortExpr { expr: KExpr { col: 2 }, direction: any_dir(), nulls: any_nulls() },
         ];
         let (ra, rb): (usize, usize) = (kani::any(), kani::any());
         kani::assume(ra < 2 && rb < 2);
@@ -118,10 +122,10 @@ pub mod rows_c {
     /// run order; falling through happens exactly when the two cells tie under it
     #[kani::proof]
     fn c25_kx_compare_key_is_key_order() {
-        let a = KBatch { cols: [[any_cell(), any_cell()], [any_cell(), any_cell()]] };
-        let b = KBatch { cols: [[any_cell(), any_cell()], [any_cell(), any_cell()]] };
+        let a = any_batch();
+        let b = any_batch();
         let col: usize = kani::any();
-        kani::assume(col < 2);
+        kani::assume(col < 3);
         let key = KSortExpr { expr: KExpr { col }, direction: any_dir(), nulls: any_nulls() };
         let (ra, rb): (usize, usize) = (kani::any(), kani::any());
         kani::assume(ra < 2 && rb < 2);
@@ -132,7 +136,13 @@ pub mod rows_c {
     #[kani::proof]
     #[kani::unwind(4)]
     fn c25_kx_compare_rows_is_run_order() {
-        check();
+        check(2);
+    }
+    /// thorough tier: up to three keys
+    #[kani::proof]
+    #[kani::unwind(5)]
+    fn c25_kx_compare_rows_is_run_order_k3() {
+        check(3);
     }
     include!("/verif/kani/gen/playback_physical_operators_spillable__rows_c.rs");
 }
@@ -237,6 +247,8 @@ pub mod fetch_c {
     }
     pub struct KSort {
         pub fetch: Option<usize>,
+        /// oracle parameter: merged output in up to three batches instead of two
+        pub three: bool,
     }
     impl KSort {
         pub fn merge_runs(&self, runs: &Vec<KPath>) -> std::result::Result<Vec<RecordBatch>, ()> {
@@ -246,7 +258,22 @@ pub mod fetch_c {
                 total += runs[k].rows;
                 k += 1;
             }
-            Ok(sorted_rows(total))
+            if !self.three {
+                return Ok(sorted_rows(total));
+            }
+            let (c1, c2): (usize, usize) = (kani::any(), kani::any());
+            kani::assume(c1 <= c2 && c2 <= total);
+            let mut v = Vec::new();
+            if c1 > 0 {
+                v.push(RecordBatch { start: 0, len: c1 });
+            }
+            if c2 - c1 > 0 {
+                v.push(RecordBatch { start: c1, len: c2 - c1 });
+            }
+            if total - c2 > 0 {
+                v.push(RecordBatch { start: c2, len: total - c2 });
+            }
+            Ok(v)
         }
     }
     include!("/verif/kani/gen/kx_c25_spilled_result.rs");
@@ -257,6 +284,15 @@ pub mod fetch_c {
     #[kani::proof]
     #[kani::unwind(5)]
     fn c25_kx_spilled_result_honours_fetch() {
+        fetch_check(false);
+    }
+    /// thorough tier: the merged rows arrive in up to three batches
+    #[kani::proof]
+    #[kani::unwind(5)]
+    fn c25_kx_spilled_result_honours_fetch_3batches() {
+        fetch_check(true);
+    }
+    fn fetch_check(three: bool) {
         let n: usize = kani::any();
         kani::assume(n <= CAP);
         let mut runs = Vec::new();
@@ -270,7 +306,7 @@ pub mod fetch_c {
             k += 1;
         }
         let fetch: Option<usize> = if kani::any() { Some(kani::any()) } else { None };
-        let op = KSort { fetch };
+        let op = KSort { fetch, three };
         let out = op.kx_c25_spilled_result(runs);
         let out = out.expect("no oracle fails");
         let want = match fetch {
@@ -382,6 +418,15 @@ pub mod merge_c {
     #[kani::proof]
     #[kani::unwind(6)]
     fn c25_kx_merge_step_keeps_pending_rows_b2() {
+        merge_step_check(2);
+    }
+    /// thorough tier: up to three queued rows
+    #[kani::proof]
+    #[kani::unwind(7)]
+    fn c25_kx_merge_step_keeps_pending_rows_b3() {
+        merge_step_check(3);
+    }
+    fn merge_step_check(max_pending: usize) {
         let mut bufs: [Option<RecordBatch>; 2] = [None, None];
         let mut idx: [usize; 2] = [0, 0];
         let mut iters = [
@@ -403,11 +448,11 @@ pub mod merge_c {
             iters[r] = KIter { run: r, next_base: base + len, next_len, left: kani::any() };
             r += 1;
         }
-        // pending rows (at most 2: carrier bound), each satisfying I
+        // pending rows (at most max_pending: carrier bound), each satisfying I
         let mut pending = KVec { items: [(0usize, 0usize); CAP], n: 0 };
         let mut ids = KVec { items: [(0usize, 0usize); CAP], n: 0 };
         let np: usize = kani::any();
-        kani::assume(np <= 2);
+        kani::assume(np <= max_pending);
         let mut k = 0;
         while k < np {
             let (pr, pi): (usize, usize) = (kani::any(), kani::any());
